@@ -1,7 +1,7 @@
 ---- MODULE MC_TxLocator ----
 EXTENDS TxLocator
 \* exhaustive checker view: the history does not influence behaviour
-ViewNoHist == <<tsOf, par, ptr, nts, nth, ntx, st, locs, cacheQ, maxTs, dbase, pending, lastc>>
+ViewNoHist == <<tsOf, par, ptr, nts, nth, ntx, st, locs, cacheQ, maxTs, dbase, pending, lastc, base>>
 \* transaction ids are interchangeable (model values in the checker configuration)
 Sym == Permutations(Ids)
 ====
